@@ -24,7 +24,12 @@ _MUT = re.compile(r"^\d+ mutate (\w+) after (\w+) (\S+) inj:mutate")
 
 
 def unq(s):
-    return urllib.parse.unquote(s)
+    return urllib.parse.unquote(s, errors="surrogateescape")
+
+
+def lz(t):
+    """Bytes fselect prints for a path: invalid UTF-8 becomes U+FFFD."""
+    return t.encode("utf-8", "surrogateescape").decode("utf-8", "replace").encode("utf-8")
 
 
 def as_world_path(given, noderel):
@@ -148,13 +153,20 @@ class Check:
                     opened.append(node["path"])
         k = rng.choice([1, 1, 1, 2, 2, 3])
         targets = rng.sample(opened, min(k, len(opened)))
+        if rng.random() < 0.06 and all(r["maxd"] == 0 for r in roots):
+            # a directory whose name is not valid UTF-8 (a Latin-1 name on a UTF-8 system) fails: it is still named, lossily
+            bad = tops[0] + "/caf\udce9"
+            world["nodes"].append({"path": bad, "type": "dir"})
+            world["nodes"].append({"path": bad + "/inside", "type": "file", "content": "x"})
+            targets.append(bad)
         if rng.random() < 0.15:
             targets.append(rng.choice(tops))
         faults = []
         errs = ["EACCES", "ENOENT", "ENOTDIR"] + (["EIO", "EMFILE"] if tier == "thorough" else [])
         for d in dict.fromkeys(targets):
             isroot = d in tops
-            kinds = ["opendir", "opendir", "realpath_fail", "unsearchable"] + ([] if isroot else ["vanish_listed", "replaced_listed", "vanish_after_canon", "readdir_mid"])
+            # (a root cannot vanish after being listed by a parent, but its own listing can fail half-way or at its very end)
+            kinds = ["opendir", "opendir", "realpath_fail", "unsearchable", "readdir_mid"] + ([] if isroot else ["vanish_listed", "replaced_listed", "vanish_after_canon", "readdir_mid"])
             kind = rng.choice(kinds)
             if kind == "unsearchable":
                 # the directory can be read but not searched (r--): its entries are listed, but every access *through* it
@@ -183,9 +195,9 @@ class Check:
             elif kind == "vanish_after_canon":
                 faults.append({"mutate": {"call": "realpath", "path": d, "nth": 1, "action": "rmtree", "target": d}})
             else:
-                nkids = sum(1 for n in world["nodes"] if n["path"].rsplit("/", 1)[0] == d)
+                nkids = sum(1 for n in world["nodes"] if "/" in n["path"] and n["path"].rsplit("/", 1)[0] == d)
                 # the error either hits one block of the listing (reading on works) or ends the listing there
-                faults.append({"fail": {"call": "readdir", "path": d, "errno": "EIO", "arg": rng.randint(0, max(0, nkids - 1)), "then_end": rng.random() < 0.5}})
+                faults.append({"fail": {"call": "readdir", "path": d, "errno": "EIO", "arg": rng.randint(0, max(0, nkids - (0 if rng.random() < 0.3 else 1))), "then_end": rng.random() < 0.5}})
         shape = rng.choice(["streamed", "streamed", "ordered", "count", "name", "attrs"])
         if rng.random() < 0.08 and not ({tops[0] + "/hollow_q", tops[0] + "/full_q"} & {n["path"] for n in world["nodes"]}):
             # an empty directory whose listing fails (the error can only strike where the listing would have ended) and a
@@ -472,7 +484,7 @@ class Check:
                         if cut:
                             continue
                         val = (r["sp"] + "/" + rel) if col == "path" else rel.rsplit("/", 1)[-1]
-                        exp[val.encode("utf-8")] += 1
+                        exp[lz(val)] += 1
                 return exp
 
             def observe(res):
@@ -493,7 +505,7 @@ class Check:
                 want = {}
                 for r in roots:
                     for rel, node, lvl in gen.ref_walk(world, r["top"]):
-                        want[(r["sp"] + "/" + rel).encode("utf-8")] = (sb.root + "/" + node["path"].rsplit("/", 1)[0]).encode("utf-8")
+                        want[lz(r["sp"] + "/" + rel)] = lz(sb.root + "/" + node["path"].rsplit("/", 1)[0])
                 for row in res.rows(4):
                     if row[0] in want and row[3] not in (b"", want[row[0]]):
                         return {"entry": row[0].decode("utf-8", "replace"), "absdir": row[3].decode("utf-8", "replace"), "want": want[row[0]].decode("utf-8", "replace")}
@@ -508,7 +520,7 @@ class Check:
                     for rel, node, lvl in gen.ref_walk(world, r["top"]):
                         if node["type"] == "dir":
                             kids = any(n2["path"].rsplit("/", 1)[0] == node["path"] for n2 in world["nodes"] if "/" in n2["path"])
-                            by_printed[(r["sp"] + "/" + rel).encode("utf-8")] = (node["path"], b"false" if kids else b"true")
+                            by_printed[lz(r["sp"] + "/" + rel)] = (node["path"], b"false" if kids else b"true")
                 for row in res.rows(4):
                     if row[0] in by_printed and row[1] not in (b"", by_printed[row[0]][1]):
                         return {"directory": by_printed[row[0]][0], "is_empty": row[1].decode(), "truth": by_printed[row[0]][1].decode()}
@@ -580,7 +592,21 @@ class Check:
             hard = expected(failed)
             # ... and the raced entry's own row is optional too: the race may strike before its parent is listed
             # (e.g. when a link to it is canonicalised earlier in the walk)
-            soft = expected(failed | mutated | mid, drop_self=mutated)
+            # Below a directory whose listing broke off, the entries delivered before the error (in any stream on it: every stream
+            # fails at the same place) were seen by the walk: they and their subtrees are required; only the rest is optional.
+            delivered = {}
+            for l in res.log:
+                f_ = l.split(" ")
+                if len(f_) >= 5 and f_[1] == "readdir" and f_[3] == "->" and f_[4] not in ("end", "err"):
+                    dpath = unq(f_[2])
+                    delivered.setdefault("" if dpath == "." else dpath, set()).add(unq(f_[4]))
+            undelivered = set()
+            for n_ in world["nodes"]:
+                if "/" in n_["path"]:
+                    par_, nm_ = n_["path"].rsplit("/", 1)
+                    if par_ in mid and nm_ not in delivered.get(par_, set()):
+                        undelivered.add(n_["path"])
+            soft = expected(failed | mutated | undelivered, drop_self=mutated | undelivered)
             got = observe(res)
             if shape == "count":
                 ok = got is not None and sum(soft.values()) <= got <= sum(hard.values())
@@ -614,7 +640,7 @@ class Check:
                     for r in roots:
                         if d == r["top"] or d.startswith(r["top"] + "/"):
                             names.append(r["sp"] + d[len(r["top"]):])
-                    if names and not any(n.encode("utf-8") in res.stderr for n in names):
+                    if names and not any(lz(n) in res.stderr for n in names):
                         viols.append(Violation(PROP, "C17.A.stderr", ["C17.A", "path_not_named", fkind, shape],
                                                {"query": q, "dir": d, "stderr": res.stderr[:400].decode("utf-8", "replace")}))
                         break
@@ -645,7 +671,7 @@ class Check:
                             continue  # the child itself raced away (vanished / replaced by a file): nothing left to report
                         if n["type"] == "dir" and n["path"].rsplit("/", 1)[0] == P and (r["maxd"] == 0 or lvlP + 1 < r["maxd"]) and {"stat", "realpath", "opendir"} <= full:
                             name = r["sp"] + n["path"][len(r["top"]):]
-                            if res.status != 1 or name.encode("utf-8") not in res.stderr:
+                            if res.status != 1 or lz(name) not in res.stderr:
                                 viols.append(Violation(PROP, "C17.A.silent", ["C17.A", "unlistable_directory_skipped_silently", "unsearchable_parent", shape],
                                                        {"query": q, "parent": P, "directory": n["path"], "status": res.status, "stderr": res.stderr[:300].decode("utf-8", "replace")}))
                                 break
